@@ -45,14 +45,16 @@ ASSUMPTIONS = [
 OPEN_STATEMENTS = [
     'subset_sum_spectrum: proved half — in every representation of the CAR with a vacuum, b+_S|vac> is an eigenvector of '
     'sum eps_j b+_j b_j + c with eigenvalue c + sum_{j in S} eps_j (fock_state_energy), and ground energy = minimum over all '
-    'subset sums for any order.  Not formalised: (a) the b modes built from W satisfy the CAR iff W satisfies the canonical '
-    'constraints, and H equals sum eps_j b+_j b_j + c for the returned (eps, W, c) (oracle: [H, b+_j] = eps_j b+_j, dense '
-    'spectrum); (b) completeness (the 2^n Fock states span the space).',
+    'subset sums for any order; the canonical constraints on W imply the CAR of the new operators (constraints_imply_car) and '
+    'conversely the CAR force the first block identity (car_implies_constraint).  Not formalised: (a) H equals '
+    'sum eps_j b+_j b_j + c for the returned (eps, W, c) (oracle: [H, b+_j] = eps_j b+_j, dense spectrum); (b) completeness '
+    '(the 2^n Fock states b+_S|vac> are linearly independent and span the space); (c) the converse for the second block identity.',
     'majorana_form operator identity: proved at coefficient level (the four ladder-monomial coefficient matrices of '
     '(i/2) sum A f f equal M, Delta/2, -Delta*/2 and the constant shift); the CAR step from coefficients to operators is '
     'checked by spec.eq on every generated input, not proved.',
     'antisymmetric_canonical_form: final shape [[0,D],[-D,0]], D >= 0 ascending for every aligned Schur form: not proved '
-    '(oracle only).  Proved: all four passes reindex the Schur pair by one permutation (so A = R^T C R is invariant); the '
+    '(oracle only; requested in the proof-growth round, not reached: it needs the explicit permutation composed by pass 2 for '
+    'general n).  Proved: all four passes reindex the Schur pair by one permutation (so A = R^T C R is invariant); the '
     'summation step from the entry-level reindexing to the matrix identity O C O^T is argued in the docstring, not formalised.',
     'gaussian state / Slater determinant correctness (state = b+_1..b+_eta|vac> up to phase): oracle only; FALSE on the real '
     'code for explicit occupations of a non-particle-conserving Hamiltonian when the annihilation block of the Bogoliubov '
